@@ -526,7 +526,7 @@ def _end_mechanisms(lines, line: str, a, b, start: list[str], src: str = "") -> 
     if a[2] == a[0] and a[3] == a[1] + 1 and b[2] == b[0] and b[3] == b[1] + 1 and start:
         return []            # neither front end has an end here (a note): column+1 follows the start column
     if a[2] == a[0] and a[3] == a[1] + 1 and (b[2], b[3]) > (a[2], a[3]):
-        why = no_end_reason(src, a[0], a[1])
+        why = no_end_reason(src, a[0], a[1]) or (no_end_reason(src, b[0], b[1]) if start else None)
         if why is not None:
             return [why]
     if a[2] == b[2] and 1 <= a[2] <= len(lines):
